@@ -241,6 +241,14 @@ func Fill(r *rand.Rand, v reflect.Value, p *Profile, path string, isOptional boo
 	}
 }
 
+var longPrefix = func() string {
+	b := make([]byte, 300)
+	for i := range b {
+		b[i] = "https://example.org/a/rather/long/path/"[i%39] + byte(i/39)
+	}
+	return string(b)
+}()
+
 var emptyTailOf = []string{"abc", "prefix-shared-0001", "x"}
 
 func randString(r *rand.Rand, p *Profile) string {
@@ -249,6 +257,11 @@ func randString(r *rand.Rand, p *Profile) string {
 		return []string{"x", "y", "zz", "x"}[r.Intn(4)]
 	case r.Intn(2) == 0:
 		return strPool[r.Intn(len(strPool))]
+	case r.Intn(6) == 0:
+		// families sharing a prefix longer than 32/64/128 bytes with a short suffix (URLs, paths):
+		// front-coding kernels copy such prefixes in vector-sized steps
+		pl := []int{33, 63, 64, 65, 70, 100, 129, 300}[r.Intn(8)]
+		return longPrefix[:pl] + []string{"", "a", "b7", "idx", "/leaf"}[r.Intn(5)]
 	default:
 		n := r.Intn(24)
 		if r.Intn(20) == 0 {
